@@ -340,7 +340,7 @@ impl VxNode {
             && (km_native_or_ldk(self.keys_manager()) ==>
                 ldk_secrets(r->Ok_0.1->Some_0->Stub_0.keys) == km_secrets(self.keys_manager(), channel_id)),             //[C18.create.stub-keys-from-id]
 //@sub /Arc::downgrade\(arc_self\)/ => arc_self.vx_downgrade()
-//@proof before /^\s*Ok\(\(channel_id\.clone\(\), Some\(ChannelSlot::Stub\(stub\)\)\)\)\s*$/
+//@proof before /^\s*Ok\(\(channel_id(?:\.clone\(\))?, Some\(ChannelSlot::Stub\(stub\)\)\)\)\s*$/
         proof {
             // C15/C11: the new stub is in the channel map under its id when the lock is released
             assert(channels@.contains_key(channel_id) && channels@[channel_id]@ == ChannelSlot::Stub(stub));         //[C15.create.stub-registered]
